@@ -68,3 +68,4 @@ rm -f *.srl
 ls
 # same subject / same key as the pinned self-signed certificate, but not the same bytes
 # (added later with the equivalent commands: same DN + new key, and same DN + same key + another validity)
+# added later with the `leaf` recipe: srv_ip (SAN IP:127.0.0.1, no DNS name), cli_oddrole (role " Operator ")
